@@ -609,26 +609,11 @@ class Recfile(object):
         return result, isrows, isslice
 
     def _process_slice(self, arg):
-        start = arg.start
-        stop = arg.stop
-        step = arg.step
+        if arg.step is not None and arg.step <= 0:
+            raise ValueError("slice step must be positive")
 
-        if step is None:
-            step = 1
-        if start is None:
-            start = 0
-        if stop is None:
-            stop = self.nrows
-        elif stop > self.nrows:
-            stop = self.nrows
-
-        if start < 0:
-            start = self.nrows + start
-            if start < 0:
-                raise IndexError("Index out of bounds")
-
-        if stop < 0:
-            stop = self.nrows + stop
+        # python slice rules: clip to the number of rows
+        start, stop, step = arg.indices(self.nrows)
 
         if stop < start:
             # will return an empty struct
@@ -637,22 +622,8 @@ class Recfile(object):
         return slice(start, stop, step)
 
     def _slice2rows(self, start, stop, step=None):
-        if start is None:
-            start = 0
-        if stop is None:
-            stop = self.nrows
-        if step is None:
-            step = 1
-
-        tstart = self._fix_range(start)
-        tstop = self._fix_range(stop)
-        # if tstart == 0 and tstop == self.nrows:
-        #    # this is faster: if all fields are also requested, then a
-        #    # single fread will be done
-        #    return None
-        if tstop < tstart:
-            raise ValueError("start is greater than stop in slice")
-        return numpy.arange(tstart, tstop, step, dtype="i8")
+        arg = self._process_slice(slice(start, stop, step))
+        return numpy.arange(arg.start, arg.stop, arg.step, dtype="i8")
 
     def _fix_range(self, num, isslice=True):
         """
